@@ -71,7 +71,9 @@ def build_driver(profile="mon", quiet=True):
     """Build celmon from /repo's *current working tree* (path dependency). Returns binary path."""
     os.makedirs(WORK, exist_ok=True)
     _alt_repo()
-    lock = os.path.join(WORK, "build.lock")
+    # one build at a time per target directory (scratch-clone runs have a target directory of their own)
+    lock = os.path.join(WORK, "build.lock") if TARGET == os.path.join(WORK, "target") else TARGET + ".lock"
+    os.makedirs(os.path.dirname(lock), exist_ok=True)
     import fcntl
     with open(lock, "w") as lf:
         fcntl.flock(lf, fcntl.LOCK_EX)
